@@ -12,6 +12,7 @@ import PgVerif.Model.Dropped
 import PgVerif.Spec.Dropped
 import PgVerif.Gen.Dropped
 import PgVerif.Gen.Mutate
+import PgVerif.Proofs.Dropped
 namespace Driver.Fam.Dropped
 open PgVerif Driver Driver.Fam
 open PgVerif.Spec (Cluster DroppedColumnInfo DroppedColumnsResult DroppedColumnData)
@@ -103,7 +104,7 @@ def opSpec (c : Cluster) : Op → Option String
   | .scan => some (showScanOpt (some (Spec.expectedScan c)))
   | .schema d t =>
     (Spec.expectedSchema c d t).map fun r =>
-      showSchemaOpt (r.map fun cols => cols.map fun (s : Spec.SchemaCol) => (⟨s.name, s.typid, s.len, s.num, s.align⟩ : Model.Column))
+      showSchemaOpt (r.map fun cols => cols.map fun (s : Spec.DroppedSchemaCol) => (⟨s.name, s.typid, s.len, s.num, s.align⟩ : Model.Column))
   | .recover d t n => (Spec.expectedRecover specVal c d t n).map showDataOpt
 
 /-! ### generation -/
@@ -186,13 +187,32 @@ def genCase (seed idx size : Nat) : Cluster × List Op :=
       let ops ← genOps c
       return (c, ops)).run' (Prng.ofSeed seed idx)
 
-/-! run-time re-check of the reader hypotheses of `dropped_columns_exact` on a database -/
+/-! run-time re-check of the hypotheses of `dropped_columns_exact` / `dropped_schema_exact` on every database of a
+generated cluster, with the executable reader on the encoded catalogs -/
 
-/-- the schema literal of the layout -/
-def schemaOf : Spec.Layout → List Model.Column
-  | .v16 => Model.schemaPGAttrDropped
-  | .v14 => Model.schemaPGAttrDroppedV15
-  | .v12 => Model.schemaPGAttrDroppedV12
+open PgVerif.Proofs.Dropped in
+def attrHypDb (l : Spec.Layout) (d : Spec.DbContent) : Bool :=
+  let data := Spec.encHeapOf (Spec.pgAttributeCols l) (Spec.attrVals l) d.att
+  match rr data Model.schemaPGAttrDropped true, rr data Model.schemaPGAttrDroppedV15 true, rr data Model.schemaPGAttrDroppedV12 true with
+  | .ok r16, .ok r15, .ok r12 =>
+    -- hread, hb16, hb15, hb12
+    decide ((rowsOfLayout l r16 r15 r12).map factsOfRow = d.att.live.map factsOfAttr) &&
+    (l == .v16 || Model.drAttrScore r16 == 0) && (l == .v14 || Model.drAttrScore r15 == 0) && (l == .v12 || Model.drAttrScore r12 == 0) &&
+    -- hwf (incl. non-empty names), hnd
+    d.att.live.all (fun a => decide (a.DroppedWF ∧ AlignOK a) && !a.name.isEmpty) &&
+    Gen.nodupB (d.att.live.map fun a => (a.relid, a.num))
+  | _, _, _ => false
+
+/-- hnames: the oid ↦ name table FindDroppedColumns builds names the relations as the specification does -/
+def namesHypDb (d : Spec.DbContent) : Bool :=
+  match Model.parsePGClass rr (Spec.encHeapOf Spec.pgClassCols Spec.classVals d.cls) with
+  | .ok tables =>
+    let names := Model.drTableNamesOf idOrder tables
+    d.att.live.all fun a => (Model.mapGet names a.relid).getD [] == Spec.drRelNameOf d a.relid
+  | .error _ => false
+
+def attrHypOK (c : Cluster) : Bool := c.content.all fun (p : Nat × Spec.DbContent) => attrHypDb c.layout p.2
+def namesHypOK (c : Cluster) : Bool := c.content.all fun (p : Nat × Spec.DbContent) => namesHypDb p.2
 
 def tags (c : Cluster) (ops : List Op) (spec : String) : List String :=
   let live : List Spec.AttrRow := (c.content.map fun (_, d) => d.att.live.filter fun a => a.num > 0).flatten
@@ -204,6 +224,7 @@ def tags (c : Cluster) (ops : List Op) (spec : String) : List String :=
    (if nNotNull == 0 then "notnull=0" else "notnull>0"),
    (if nRecover == 0 then "recover=0" else if nRecover < 4 then "recover<4" else "recover>=4")] ++
   (if Gen.clusterWFB c && decide c.DroppedWF then [] else ["notwf"]) ++
+  [if attrHypOK c then "hyp:attr=ok" else "hyp:attr=FAIL", if namesHypOK c then "hyp:names=ok" else "hyp:names=FAIL"] ++
   (if nDropped > 0 && spec.length > 100 then ["nt"] else [])
 
 def wfGen (seed idx size : Nat) : Case :=
